@@ -156,15 +156,15 @@ func (c *envC) Exec(op string) string {
 				return "err"
 			}
 			return Hex(prj.Processes["p"].Command)
-		case len(w) == 5 && w[0] == "launchenv":
+		case (len(w) == 5 || len(w) == 6) && w[0] == "launchenv":
 			glob, ok1 := pairs(w[1])
 			ownP, ok2 := pairs(w[2])
 			ownQ, ok3 := pairs(w[3])
 			key, ok4 := UnHex(w[4])
-			if !ok1 || !ok2 || !ok3 || !ok4 {
+			if !ok1 || !ok2 || !ok3 || !ok4 || (len(w) == 6 && w[5] != "cmds") {
 				return "bad-op"
 			}
-			return c.launchEnv(glob, ownP, ownQ, key)
+			return c.launchEnv(glob, ownP, ownQ, key, len(w) == 6)
 		case len(w) == 7 && w[0] == "procenv":
 			name, ok := UnHex(w[1])
 			rep, err := strconv.Atoi(w[2])
@@ -212,7 +212,7 @@ func (c *envC) Exec(op string) string {
 // real runner (fake commands, cooperative scheduler): p is launched, q is launched, p fails and is
 // relaunched by its restart policy. The global environment is a slice with spare capacity, as a
 // merged or env_cmds-extended environment is. Result: the value of `key` seen by p#1, q#1, p#2.
-func (c *envC) launchEnv(glob, ownP, ownQ [][2]string, key string) string {
+func (c *envC) launchEnv(glob, ownP, ownQ [][2]string, key string, withCmds bool) string {
 	flat := func(ps [][2]string, spare int) []string {
 		l := make([]string, 0, len(ps)+spare)
 		for _, p := range ps {
@@ -229,6 +229,11 @@ func (c *envC) launchEnv(glob, ownP, ownQ [][2]string, key string) string {
 	}
 	prj := &types.Project{Environment: flat(glob, 6), ShellConfig: &command.ShellConfig{ShellCommand: "sh", ShellArgument: "-c"},
 		Processes: map[string]types.ProcessConfig{"p": mk("p", ownP, types.RestartPolicyOnFailure), "q": mk("q", ownQ, types.RestartPolicyNo)}}
+	if withCmds {
+		// env_cmds: the trimmed output of each command becomes a global variable (appended after the
+		// configured ones); a command that fails defines nothing
+		prj.EnvCommands = map[string]string{"VT_CMD": "echo '  fromcmd  '", "VT_A": "echo cmdA", "VT_FAIL": "echo no; exit 3"}
+	}
 	r, err := app.NewProjectRunner((&app.ProjectOpts{}).WithProject(prj).WithIsTuiOn(true))
 	if err != nil {
 		return "runner-error"
@@ -400,6 +405,11 @@ func (c *envC) Gen(r *rand.Rand, tier string, emit func(string)) {
 			b = append(b, [2]string{"VT_OWN", "of-q"})
 		}
 		key := append(keys, "VT_OWN")[r.Intn(len(keys)+1)]
+		if k%2 == 1 {
+			key = append(keys, "VT_CMD", "VT_FAIL")[r.Intn(len(keys)+2)]
+			emit(fmt.Sprintf("launchenv %s %s %s %s cmds", encPairs(g), encPairs(a), encPairs(b), Hex(key)))
+			continue
+		}
 		emit(fmt.Sprintf("launchenv %s %s %s %s", encPairs(g), encPairs(a), encPairs(b), Hex(key)))
 	}
 }
